@@ -41,8 +41,8 @@ PROFILE = Profile(name="sim", p_filter=0.7, force_sparse_and_dense_choice=0.35, 
 
 
 @st.composite
-def cases(draw):
-    spec = draw(model_specs(PROFILE))
+def cases(draw, prof=None):
+    spec = draw(model_specs(prof or PROFILE))
     return {
         "spec": spec.to_json(),
         "agents": draw(raw_agents(1, 8)),
@@ -52,7 +52,14 @@ def cases(draw):
     }
 
 
+PROFILE_BIG = Profile(name="sim_big", p_filter=0.7, force_sparse_and_dense_choice=0.35, max_periods=4,
+                      max_cont_states=3, max_cont_choices=3, max_cont_choice_nodes=7, max_points=150_000,
+                      p_near_tie=0.2)
+
+
 def strategy(tier):
+    if tier == "thorough":
+        return st.one_of(cases(), cases(), cases(PROFILE_BIG))
     return cases()
 
 
